@@ -763,6 +763,13 @@ class S3StorageBackend(StorageBackend):
         from .s3_consistency import with_s3_retry
 
         s3_prefix = self._get_s3_key(prefix)
+        # `prefix` names a DIRECTORY. S3's Prefix is a raw string match, so
+        # without the separator list_files("data") would also return
+        # "data_backup/x" or "data2/y" - objects the local backend never lists
+        # and that garbage collection would then classify (and delete) as
+        # orphans of this table.
+        if s3_prefix and not s3_prefix.endswith("/"):
+            s3_prefix += "/"
 
         def list_op() -> List[str]:
             result = []
